@@ -32,7 +32,7 @@ kernel and the schedulers are shared mechanisms; C08 is the umbrella over all el
 `tools/seedtest.py --dir /verif/seeded --all-props` on scratch worktrees (never on `/repo`) and
 `tools/matrix_section.py`. `r2-` ids are round 2. This table: %d seeds at /repo %s (all patches re-created on the
 repaired tree after each batch of `fix:` commits and re-validated there; two seeds were dropped as obsolete because a
-repair removed the very construct they broke: r2-C13-m1 after e924495, r2-C09-m3 after d7f640f; `r3-`, `r4-` ids are rounds 3 and 4); %d caught by the
+repair removed the very construct they broke: r2-C13-m1 after e924495, r2-C09-m3 after d7f640f; `r3-`, `r4-`, `r5-` ids are rounds 3, 4 and 5); %d caught by the
 check of their own property, %d not. The 320 stored refactorings (`tools/refactest.py`): 318 silent, two recorded limitations (G08-u2, G09-v3; section 0.7).
 
 | seed | breaks | own check | also flagged by | files | change |
